@@ -331,7 +331,20 @@ def _sf(name, kt, tag=-1, hasd=False, dflt=None):
 _BASE = {"name": "BaseEntity", "flex": True, "fields": [_sf("a", "int32"), _sf("t", "int16", 0, True, {"int": 7})]}
 # ... and an entity class derived from another one (its fields extend the base's): whatever is cached for
 # the base must not be found for the derived class.  The twins stay the LAST two entries.
+_CHILD = {"name": "SharedChild", "flex": True, "fields": [_sf("x", "int32"), _sf("y", "string")]}
+
+
+def _struct(name, sub, nul):
+    return {"name": name, "kind": "struct", "arr": False, "ktype": "", "nul": nul, "inul": False, "tag": -1,
+            "hasd": nul, "dflt": project.NULL, "sub": sub}
+
+
+# two parents embedding the SAME child class, one as an optional struct (KIP-893 marker byte) and one as a
+# plain struct: whatever is cached for the child must not carry the parent's nullability.  They come first;
+# the derived pair and the twins keep their places at the end.
 SYNTH_POOL = [
+    ("<synth>", {"name": "ParentOptional", "flex": True, "fields": [_sf("a", "int8"), _struct("c", _CHILD, True)]}),
+    ("<synth>", {"name": "ParentPlain", "flex": True, "fields": [_sf("a", "int8"), _struct("c", _CHILD, False)]}),
     ("<synth>", _BASE),
     ("<synth>", {"name": "DerivedEntity", "flex": True, "base": _BASE,
                  "fields": _BASE["fields"] + [_sf("extra", "string"), _sf("u", "int8", 1, True, {"int": 3})]}),
